@@ -486,4 +486,93 @@ example : runTape (bootstrap 3 4 [("a", [65, 67, 71, 84])]) [.nat 3, .nat 3, .na
 example : ∃ t, runTape (shuffleSequences [("a", [65]), ("b", [67]), ("c", [71])]) t = some ([("b", [67]), ("c", [71]), ("a", [65])], []) :=
   ⟨[.nat 0, .nat 0], by rfl⟩
 
+/-! ## Rarefy -/
+
+private theorem rarefyPick_mem (u : Float) (total : Nat) : ∀ (cs : List (String × Nat)) (pr : Float) (done : List (String × Nat))
+    (k : String) (cs' : List (String × Nat)),
+    rarefyPick u total cs pr done = some (k, cs') →
+    k ∈ cs.map Prod.fst ∧ ∀ x ∈ cs'.map Prod.fst, x ∈ (done.reverse ++ cs).map Prod.fst := by
+  intro cs
+  induction cs with
+  | nil => intro pr done k cs' h; simp [rarefyPick] at h
+  | cons c rest ih =>
+    intro pr done k cs' h
+    obtain ⟨ck, cv⟩ := c
+    simp only [rarefyPick] at h
+    split at h
+    · simp only [Option.some.injEq, Prod.mk.injEq] at h
+      obtain ⟨rfl, rfl⟩ := h
+      refine ⟨by simp, ?_⟩
+      intro x hx
+      split at hx <;> simp at hx ⊢ <;> grind
+    · obtain ⟨h1, h2⟩ := ih _ _ _ _ h
+      refine ⟨by simp; exact Or.inr (by simpa using h1), ?_⟩
+      intro x hx
+      have := h2 x hx
+      simp at this ⊢
+      grind
+
+private theorem rarefyLoop_sel (n : Nat) : ∀ (total : Nat) (cs : List (String × Nat)) (sel : List String) (t : List Ans)
+    (out : List String) (t' : List Ans),
+    runTape (rarefyLoop n total cs sel) t = some (out, t') →
+    ∀ x ∈ out, x ∈ sel ∨ x ∈ cs.map Prod.fst := by
+  induction n with
+  | zero => intro total cs sel t out t' h; simp [rarefyLoop, runTape] at h; obtain ⟨rfl, _⟩ := h; intro x hx; exact Or.inl hx
+  | succ n ih =>
+    intro total cs sel t out t' h
+    simp only [rarefyLoop] at h
+    cases t with
+    | nil => simp [runTape] at h
+    | cons a t =>
+      cases a with
+      | nat v => simp [runTape] at h
+      | flt u =>
+        simp only [runTape] at h
+        split at h
+        · rename_i k cs' hp
+          obtain ⟨h1, h2⟩ := rarefyPick_mem u total cs 0.0 [] k cs' hp
+          intro x hx
+          rcases ih _ _ _ _ _ _ h x hx with hs | hc
+          · simp at hs
+            rcases hs with rfl | hs
+            · exact Or.inr h1
+            · exact Or.inl hs
+          · exact Or.inr (by simpa using h2 x hc)
+        · exact ih _ _ _ _ _ _ h
+
+/-- **`Rarefy` returns original rows in their original order, each of which was given a count** — for
+every tape (the draws only decide which counted rows are kept). -/
+theorem rarefy_keeps_counted_rows_in_order (nb : Nat) (counts : List (String × Nat)) (rows : Rows) (p : RProg Rows)
+    (hp : rarefy nb counts rows = some p) (t : List Ans) (out : Rows) (t' : List Ans)
+    (h : runTape p t = some (out, t')) :
+    out.Sublist rows ∧ ∀ r ∈ out, r.1 ∈ counts.map Prod.fst := by
+  unfold rarefy at hp
+  split at hp
+  · cases hp
+  · simp only at hp
+    split at hp
+    · cases hp
+    · simp only [Option.some.injEq] at hp
+      subst hp
+      rw [runTape_bind] at h
+      cases hl : runTape (rarefyLoop nb ((counts.map Prod.snd).foldl (· + ·) 0) counts []) t with
+      | none => simp [hl] at h
+      | some r =>
+        obtain ⟨sel, t1⟩ := r
+        simp only [hl, Option.bind_some, runTape, Option.some.injEq, Prod.mk.injEq] at h
+        obtain ⟨rfl, _⟩ := h
+        refine ⟨List.filter_sublist, ?_⟩
+        intro r hr
+        have hm := (List.mem_filter.mp hr).2
+        have hsel : r.1 ∈ sel := by simpa using hm
+        rcases rarefyLoop_sel nb _ counts [] t sel t1 hl r.1 hsel with h0 | h1
+        · simp at h0
+        · exact h1
+
+/-- the hypotheses are satisfiable: a concrete rarefaction -/
+example : ∃ p, rarefy 1 [("a", 2), ("b", 1)] [("a", [65]), ("b", [67]), ("c", [71])] = some p ∧
+    (runTape p [Ans.flt 0.9]).map (·.1) = some [("b", [67])] := by
+  exact ⟨_, rfl, rfl⟩
+
+
 end Gv.Props.C10
